@@ -103,6 +103,18 @@ impl Store {
         self.data.join("continuity_streams")
     }
 
+    /// Copy only `data/` to a fresh temp store that shares this store's workspace directory
+    /// (for read-mostly use; the shared workspace outlives the fork only if `self` does).
+    pub fn fork_sharing_ws(&self, tag: &str) -> Store {
+        let n = NEXT_DIR.fetch_add(1, Ordering::Relaxed);
+        let dir = scratch_root().join(format!("{tag}-{n}"));
+        let _ = std::fs::remove_dir_all(&dir);
+        let data = dir.join("data");
+        std::fs::create_dir_all(&data).expect("mk data");
+        copy_dir(&self.data, &data);
+        Store { dir, data, ws: self.ws.clone(), keep: false }
+    }
+
     /// Copy this store (data + ws) to a fresh temp store.
     pub fn fork(&self, tag: &str) -> Store {
         let s = Store::new(tag);
